@@ -1088,7 +1088,7 @@ def mutation_stream(ctx, sess):
         m = re.search(rb'Action[^>]*>([^<]*)<', r['body'])
         by_type.setdefault((m.group(1) if m else b'?', r['path'].split('/')[-1]), r)
     types_ = list(by_type.values())
-    n = ctx.n(1100, 10000)
+    n = ctx.n(1100, 8500)
     sample_every = 10 if ctx.tier == 'quick' else 6
     for i in range(n):
         rec = types_[i % len(types_)] if i < 4 * len(types_) else rng.choice(pool)
